@@ -146,7 +146,8 @@ fn record_layout(rec: &mut Rec, font: &MonoFont, lay: &Layout) -> bool {
         lines.push(json!({"text": line, "y": y, "ret": dr.ret, "map": dr.map, "m0": pt_json(m0), "mp": pt_json(mp)}));
     }
     // the same text with Baseline::Top
-    let top = if lay.base != 0 {
+    // (not on the last rows of the coordinate range: with Baseline::Top the same text would not fit there)
+    let top = if lay.base != 0 && lay.pos.1 < i32::MAX - (1 << 16) {
         let dr = draw(font, &lay.sty, text_style(lay.align, 0, lay.lh), &lay.text, pos);
         json!({"used": 1, "ret": dr.ret, "map": dr.map})
     } else {
@@ -415,6 +416,19 @@ fn main() {
                     run_case(&mut rec, &fonts, &json!({"k": k, "font": f, "text": text, "pos": [x, y], "align": align, "base": base,
                         "lh": [1, 100], "sty": stys[j % stys.len()].to_arr(), "chains": []}));
                 }
+            }
+        }
+    }
+    // the very last rows of the coordinate range: the text fits completely (bottom baseline on row i32::MAX, the second
+    // line of a two-line text on it), and so does the returned position
+    // (styles without an underline: an underline lies below the cell, i.e. beyond the last row)
+    let no_ul: Vec<_> = stys.iter().filter(|s| s.to_arr()[2] == 0).collect();
+    for (k, f, _) in pool.iter().take(3) {
+        for (j, (align, x)) in [(0u32, 5), (2, 90), (1, -40)].iter().enumerate() {
+            for (text, y, lh) in [(s("a"), i32::MAX, json!([1, 100])), (s("ab"), i32::MAX - 1, json!([1, 100])), (s("ab\nc"), i32::MAX - 5, json!([0, 5])),
+                                  (s("a\r\nbc\nd"), i32::MAX - 6, json!([0, 3]))] {
+                run_case(&mut rec, &fonts, &json!({"k": k, "font": f, "text": text, "pos": [x, y], "align": align, "base": 1,
+                    "lh": lh, "sty": no_ul[j % no_ul.len()].to_arr(), "chains": []}));
             }
         }
     }
